@@ -105,10 +105,10 @@ def _hist_nontrivial(case, impl):
 
 HIST_RULE = ("400 (quick) / 8000 (thorough) random projects (2-6 steps over 4 sources and 3 headers: plain, gcc-depfile, "
              "msvc /showIncludes, rspfile and phony steps; explicit/implicit/order-only/validation inputs; optional "
-             "manifest generator `build build.ninja: gen build.ninja.in`) each with a history of 5-15 operations: invoke "
+             "manifest generator `build build.ninja: gen build.ninja.in`, or a generated fragment `include frag.ninja` with `build frag.ninja: gen frag.ninja.in` and `build build.ninja: phony frag.ninja`) each with a history of 5-15 operations: invoke "
              "(-j 1-3, -k none/1-2, target subsets and spellings, occasional -t restat, immediate re-invocation), edit / "
              "touch / delete sources and headers, delete / tamper outputs, edit the manifest (comment, rename all rules, "
-             "reorder statements, change a flag, remove a step, add an input). Played against the REAL n2 in-process in a "
+             "reorder statements, change a flag, remove a step, add an input, drop an input). Steps may have implicit outputs (tampered like the others); `rw` steps also rewrite a private input of theirs (a plain file or one declared as the output of an input-less phony step, CMake style; cleanEq is not evaluated on such manifests: the command is no function of its inputs); a source may be declared as a phony output. Played against the REAL n2 in-process in a "
              "real temp dir with logical mtimes; commands follow the shared semantics (content digest of inputs and "
              "reported deps; deps = #name tokens of the explicit inputs, written to a real depfile / as 'Note: including "
              "file' lines; !fail / !int tokens). Compared per invocation: full transition trace, result, and the whole "
@@ -171,16 +171,17 @@ PROPS = {
             "props": ["C07"], "modes": ["db"], "level": "proof", "nontrivial": {"db": _db_nontrivial},
             "rule": DB_RULE, "assumptions": DB_ASSUME, "trusted_base": DB_TB,
             "monitors": ["startsNormally", "survivorsExact", "laterLoadable"]},
-    "C08": {"claim": "Lean 4 theorems: a record is attributed to a step iff it names at least one output and EVERY output it names is currently produced by that step (soundness and completeness of the attribution fold, F6 repaired), so moved or dropped outputs make a record unusable rather than misapplied; the latest attributed record is the one in force; record round trip for any shapes within the field widths; over-wide records are not written (F7 repaired). Ids are resolved through names only. Tied to the real db.rs by loading real logs against re-generated graphs over the same names; monitor attributionOk evaluated in Lean on what the real reader attached.",
-            "props": ["C08"], "modes": ["db"], "level": "proof", "nontrivial": {"db": _db_nontrivial},
-            "rule": DB_RULE, "assumptions": DB_ASSUME, "trusted_base": DB_TB,
-            "monitors": ["attributionOk", "survivorsExact"]},
+    "C08": {"claim": "Lean 4 theorems: a record is attributed to a step iff it names at least one output and EVERY output it names is currently produced by that step (soundness and completeness of the attribution fold, F6 repaired), so moved or dropped outputs make a record unusable rather than misapplied; the latest attributed record is the one in force; record round trip for any shapes within the field widths; over-wide records are not written (F7 repaired). Ids are resolved through names only. Tied to the real db.rs by loading real logs against re-generated graphs over the same names; monitor attributionOk evaluated in Lean on what the real reader attached. The clause about neutral manifest edits (reordering, renaming rules, comments, adding/removing other statements) is carried by the history mode: the world model, whose step signature is a list of names and mtimes in declared order and so cannot depend on file ids or statement positions, predicts per invocation exactly which commands the real n2 starts (monitor runSetAsPredicted) over histories that include such edits.",
+            "props": ["C08"], "modes": ["db", "hist"], "level": "proof", "nontrivial": {"db": _db_nontrivial, "hist": _hist_nontrivial},
+            "rule": DB_RULE + " || second clause (neutral manifest edits never cause a re-run): " + HIST_RULE,
+            "assumptions": DB_ASSUME + HIST_ASSUME, "trusted_base": DB_TB + HIST_TB,
+            "monitors": ["attributionOk", "survivorsExact", "runSetAsPredicted", "logAgrees"]},
     "C01": _sched("Lean 4 theorems about the scheduler model: the readiness gate admits a build only when every producer of an ordering input is Done; everything ready_dependents promotes passed it; the gating invariant is preserved by every state transition; validation edges do not enter readiness; the want phase never resets a queued/running/finished build (joint induction over the mutually recursive want functions, covering re-entrancy). The model is tied to the real Work/Runner by exact equality of full transition traces on random graphs x schedules, and the monitors startsAfterDeps (all transitive ordering producers Done before a start) and startsOnce are evaluated in Lean on the implementation's trace.",
                   ["C01"], ["startsAfterDeps", "startsOnce", "traceSpec"]),
     "C04": _sched("Lean 4 theorems: pop_queued only hands out builds from a pool with room; the start loop never exceeds -j; per-pool running counters equal the number of Running builds of that pool across every transition; pool names are distinct with declared pools overriding built-ins; an undeclared pool is an error at enqueue time. Tied to the real scheduler by trace equality; monitor withinLimits (running set <= -j and <= depth per pool at every start) evaluated on the implementation's trace.",
                   ["C04"], ["withinLimits", "traceSpec"]),
     "C05": _sched("Lean 4 theorems: Work::run reports success only with no failed task and nothing pending; with the invariant, nothing pending means every build is Unknown, Done or Failed; a Failed producer blocks the readiness gate of its dependents; the want phase cannot revive a Failed build. Tied to the real scheduler by trace equality; monitors failuresContained, budgetRespected, exitOk, stopsOnInterrupt evaluated on the implementation's trace.",
-                  ["C05"], ["failuresContained", "budgetRespected", "exitOk", "stopsOnInterrupt", "traceSpec"]),
+                  ["C05"], ["failuresContained", "budgetRespected", "exitOk", "stopsOnInterrupt", "traceSpec", "budgetSpec", "keepsGoing"]),
     "C06": _sched("Lean 4 theorems: an error while collecting the wanted set (dependency cycle) returns before the run loop, so nothing starts; the diagnostic has the documented shape; readiness never looks at validation inputs; inherited Done states survive the second want phase; the run loops are total functions. Termination without the BUG outcome and 'all wanted Done when nothing fails' are so far checked by the monitor `decided`/`exitOk` on every implementation trace (cyclic, validation-cyclic and acyclic graphs) and by trace equality with the model; the progress-measure proof is in progress.",
                   ["C06"], ["decided", "exitOk", "cycleSound", "cycleComplete"]),
     "C18": _sched("Lean 4 theorems: target lookup is invariant under spellings with equal canonical form; an unknown name is rejected (outside restat mode) before later targets are considered; the manifest named as target is skipped; wanting more targets only turns Unknown builds into Want/Ready. Tied to the real run::build by trace equality (targets / defaults / all-files choice is part of the model); monitors onlyWanted and closureComplete (the set of builds that left Unknown = closure over ordering+validation producers of the resolved targets) evaluated on the implementation's trace.",
@@ -232,3 +233,23 @@ PROPS = {
         "trusted_base": ["canon.rs modelled: canonicalize_path lines 44-137 incl. StackStack capacity panic and the empty-path assert"],
     },
 }
+
+
+# --- properties whose last clause is about whole invocations also run the history mode -----------------
+PROPS["C13"]["modes"] = ["canon", "hist"]
+PROPS["C13"]["nontrivial"]["hist"] = _hist_nontrivial
+PROPS["C13"]["monitors"] = ["noPanic", "lenOk", "idem", "normal", "sameLoc", "logAgrees", "runSetAsPredicted", "cleanEq"]
+PROPS["C13"]["rule"] += " || one node per location across manifest / command line / reported dependencies: " + HIST_RULE
+PROPS["C13"]["claim"] += (" The clause 'two spellings of one location resolve to the same graph node, whether written in the manifest, "
+    "given on the command line or reported by a depfile / showIncludes' is carried by the history mode: sources report dependencies "
+    "under non-canonical spellings (#./h0), targets are given as ./o0, and the world model (which canonicalises every reported name "
+    "before interning it) must predict the real n2's runs, tree and log exactly (monitors logAgrees, runSetAsPredicted, cleanEq).")
+PROPS["C13"]["assumptions"] = PROPS["C13"]["assumptions"] + HIST_ASSUME
+PROPS["C13"]["trusted_base"] = PROPS["C13"]["trusted_base"] + HIST_TB
+
+PROPS["C18"]["modes"] = PROPS["C18"]["modes"] + ["hist"]
+PROPS["C18"]["nontrivial"]["hist"] = _hist_nontrivial
+PROPS["C18"]["monitors"] = PROPS["C18"]["monitors"] + ["wantedFromNewText", "runSetAsPredicted"]
+PROPS["C18"]["rule"] += " || names resolved against the reloaded manifest: " + HIST_RULE
+PROPS["C18"]["claim"] += (" Command-line names are resolved against the RELOADED manifest: carried by the history mode (manifest generators "
+    "whose output renumbers or adds files), monitor wantedFromNewText.")
